@@ -438,11 +438,25 @@ func DeleteAttr(self Object, keyObj Object) error {
 // Calls __repr__ on the object or returns a sensible default
 func Repr(self Object) (Object, error) {
 	if I, ok := self.(I__repr__); ok {
-		return I.M__repr__()
+		return stringResult("__repr__", I.M__repr__)
 	} else if res, ok, err := TypeCall0(self, "__repr__"); ok {
-		return res, err
+		return stringResult("__repr__", func() (Object, error) { return res, err })
 	}
 	return String(fmt.Sprintf("<%s instance at %p>", self.Type().Name, self)), nil
+}
+
+// stringResult calls f, a __repr__ or __str__ method, and makes sure
+// that what it returns is a str: a method written in Python can
+// return anything and the callers rely on getting a String
+func stringResult(name string, f func() (Object, error)) (Object, error) {
+	res, err := f()
+	if err != nil {
+		return nil, err
+	}
+	if _, ok := res.(String); !ok {
+		return nil, ExceptionNewf(TypeError, "%s returned non-string (type %s)", name, res.Type().Name)
+	}
+	return res, nil
 }
 
 // DebugRepr - see Repr but returns the repr or error as a string
@@ -461,9 +475,9 @@ func DebugRepr(self Object) string {
 // Calls __str__ on the object and if not found calls __repr__
 func Str(self Object) (Object, error) {
 	if I, ok := self.(I__str__); ok {
-		return I.M__str__()
+		return stringResult("__str__", I.M__str__)
 	} else if res, ok, err := TypeCall0(self, "__str__"); ok {
-		return res, err
+		return stringResult("__str__", func() (Object, error) { return res, err })
 	}
 	return Repr(self)
 }
